@@ -111,7 +111,7 @@ CLAIMED = {
         "is written. delete/incr/decr/touch/flush_all: the command handed to the exchange function equals the documented format with "
         "the noreply marker iff the call does not wait. All for bytes and str keys, any prefix, ascii and utf-8 encodings.",
    note="Known finding (not repaired: pinned test asserts it): the empty key is accepted; re-confirmed by witness replay each run. Not yet "
-        "mechanised: command text of stats/version/quit/shutdown; the strict-parse uniqueness lemma. get/gets/gat/gats and get_many/gets_many (any number of keys, one-shot iterators included; empty collections send nothing) are covered. Trusted: pyvc, "
+        "mechanised: command text of stats/cache_memlimit; the strict-parse uniqueness lemma. get/gets/gat/gats and get_many/gets_many (any number of keys, one-shot iterators included; empty collections send nothing) are covered. Trusted: pyvc, "
         "z3/cvc5 strings, A-int/A-enc axioms, serde returns bytes|str|int with 16-bit flags, integer arguments within protocol ranges.",
    technique="contract-based deductive verification: loop invariants + per-path string VCs over the real command builders (cvc5 + z3)",
    ref="5 C02"),
@@ -122,7 +122,7 @@ CLAIMED = {
         "cut lemma (uniqueness of the first split). Proved at every exit: Sync(client) - the socket is dropped and closed, or nothing "
         "of the answer is unread or buffered; nothing is read with noreply; exactly one unit per command otherwise; the batch is sent "
         "once. delete/incr/decr/touch/flush_all/delete_many: the command carries the noreply marker iff the method does not wait.",
-   note="_fetch_cmd/_extract_value (single-key and multi-key fetches over a key collection of any length) and the set/get families are covered the same way. Not yet mechanised: stats, set_many's wrapper, version/quit/shutdown, HashClient wrappers. Trusted: "
+   note="_fetch_cmd/_extract_value (single-key and multi-key fetches over a key collection of any length) and the set/get families are covered the same way. version/quit/shutdown: one exchange with the fixed command text, Sync at every exit, quit leaves the connection closed. set_many: one batch with the caller's dict. Not yet mechanised: stats/cache_memlimit, HashClient wrappers. Trusted: "
         "reader contracts (C03), _connect contract (C06), causality of the reply stream, the meta-lemma composing per-call Sync into the "
         "sequence-level statement. Termination ('never blocks') is outside this family.",
    technique="contract-based deductive verification: ghost reply stream, loop invariants, cut lemmas; string VCs by cvc5 + z3",
